@@ -215,6 +215,24 @@ OnVerify(ev) ==
   /\ Chk("scn.model.agrees", ev.expect # NONE, (ev.expect.v = "reject") = (r.v = "reject"))
   /\ st' = IF ev.pair # 0 THEN [st EXCEPT !.vpairs = @ \cup {[id |-> ev.pair, ok |-> implok, claims |-> IF implok THEN claims ELSE NONE]}] ELSE st
 
+(***************************************************************************)
+(* Salts (C14): run-level clauses over all salts / decoy digests drawn by  *)
+(* 1..16 threads (unioned by the driver; no cross-thread order is assumed).*)
+(* Bit balance in integer arithmetic: |2*ones - n| <= 8*sqrt(n).           *)
+(***************************************************************************)
+\* b: prefix -> sequence of strings (a grouping made by the driver and checked here): all distinct, n in total
+GroupedDistinct(b, n) ==
+  /\ \A p \in DOMAIN b : /\ \A i \in DOMAIN b[p] : Len(b[p][i]) >= Len(p) /\ SubSeq(b[p][i], 1, Len(p)) = p
+                         /\ Cardinality(SeqToSet(b[p])) = Len(b[p])
+  /\ LET ps == SetToSeq(DOMAIN b) IN SumSeq([i \in DOMAIN ps |-> Len(b[ps[i]])]) = n
+OnSalts(ev) ==
+  /\ Chk("salts.drawn", TRUE, ev.n >= 1 /\ ev.failed = 0)
+  /\ Chk("salts.unique", TRUE, GroupedDistinct(ev.salts, ev.n))
+  /\ Chk("salts.decoys.unique", ev.ndecoys > 0, GroupedDistinct(ev.decoys, ev.ndecoys))
+  /\ Chk("salts.length", TRUE, ev.minlen >= 16 /\ ev.badsalt = 0)
+  /\ Chk("salts.bits", ev.n >= 1000, \A i \in DOMAIN ev.bits : LET d == 2 * ev.bits[i] - ev.n IN d * d <= 64 * ev.n)
+  /\ Chk("salts.digest", TRUE, ev.dgmismatch = 0)
+  /\ st' = st
 OnAdvSign(ev) == st' = [st EXCEPT !.ledger = @ \cup {Signed(ev.key, ev.alg, ev.id)}]
 OnReset(ev) == st' = [Empty EXCEPT !.case = ev.case]
 
@@ -226,6 +244,7 @@ Next == /\ l <= Len(Rec)
              [] ev.ev = "Present" -> OnPresent(ev)
              [] ev.ev = "Verify" -> OnVerify(ev)
              [] ev.ev = "AdvSign" -> OnAdvSign(ev)
+             [] ev.ev = "Salts" -> OnSalts(ev)
              [] ev.ev = "Call" -> Total(ev) /\ st' = st
              [] ev.ev = "EndRun" -> st' = st
         /\ l' = l + 1
